@@ -50,8 +50,9 @@ Proof.
       repeat split; try lia; try assumption.
       eapply forallb_Forall'; [|eassumption]. intros [k v] Hkv. cbn [fst snd] in *. unfold bytes_small. lia.
     + destruct (bd_CustomPayload (f_Body f)); [reflexivity|discriminate].
-  - destruct (has (h_Flags (f_Header f)) HeaderFlagWarning).
-    + match goal with Hp : _ && _ && _ = true |- _ => repeat (apply andb_prop in Hp; destruct Hp as [Hp ?]) end.
+  - unfold has_warnings.
+    destruct (has (h_Flags (f_Header f)) HeaderFlagWarning && msg_is_response (bd_Message (f_Body f))).
+    + match goal with Hp : (_ <=? _) && _ = true |- _ => apply andb_prop in Hp; destruct Hp as [Hp ?] end.
       destruct (bd_Warnings (f_Body f)) as [l|]; [|discriminate].
       match goal with Hl : _ && _ = true |- _ => apply andb_prop in Hl; destruct Hl as [Hl1 Hl2] end.
       repeat split; try assumption; try lia. exists l. split; [reflexivity|]. split; [lia|].
